@@ -98,9 +98,9 @@ inline void with_stream(const P& p, const ExecOp& op, const Buf& buf, Outcome& o
     else
     {
         std::ostringstream os;
+        // the text is collected also when the call leaves by exception
+        struct Collect { std::ostringstream& os; Outcome& out; ~Collect() { out.stream_bad = !os.good(); out.oss_text = os.str(); } } collect{ os, out };
         call_api(p, op, buf, static_cast<std::ostream&>(os), out);
-        out.stream_bad = !os.good();
-        out.oss_text = os.str();
     }
 }
 
